@@ -99,7 +99,9 @@ def verify_unit_worker(qualname: str) -> dict:
                     rec["status"] = "failed"
                     rec["backend"] += "+bounded-model+native-replay"
                     model = None
-            if model is not None and v.status == "failed":
+            if model is not None and v.status == "failed" and ob.kind == "capture":
+                rec["replay"] = {"confirmed": False, "note": "closure-cell obligation: decided on the program text, no input to replay"}
+            elif model is not None and v.status == "failed":
                 rp = replay_model(reg, c, r, ob, model)
                 if not rp.get("confirmed"):
                     for B in (2, 3, 4):
